@@ -65,8 +65,9 @@ namespace parmcb {
 
                 std::vector<Vertex> feedback_vertex_set;
                 parmcb::greedy_fvs(g, std::back_inserter(feedback_vertex_set));
-                for (auto v : feedback_vertex_set) {
-                    trees.emplace_back(trees.size(), g, boost::get(boost::vertex_index, g), weight_map, v + 0 * trees.size());
+                typename boost::graph_traits<Graph>::vertex_iterator vi, viend;
+                for (boost::tie(vi, viend) = boost::vertices(g); vi != viend; ++vi) {
+                    trees.emplace_back(trees.size(), g, boost::get(boost::vertex_index, g), weight_map, *vi);
                 }
                 for (auto &tree : trees) {
                     std::vector<CandidateCycle<Graph, WeightMap>> tree_cycles = tree.create_candidate_cycles();
